@@ -93,6 +93,84 @@ def rnd_double(rng) -> float:
     return rng.uniform(-5, 5)
 
 
+
+# ------------------------------------------------------------------ exact re-computations (independent of the Lean model)
+def ref_trunc(x: F) -> int:
+    return x.numerator // x.denominator if x >= 0 else -((-x.numerator) // x.denominator)
+
+
+def ref_split(x: F):
+    p = x - ref_trunc(x)
+    w = x - p
+    if p > F(1, 2):
+        return w + 1, p - 1
+    if p < F(-1, 2):
+        return w - 1, p + 1
+    return w, p
+
+
+def ref_maybe_int(x: F, tol: F):
+    """None = passed through, else the int"""
+    w, p = ref_split(x)
+    return int(w) if abs(p) < tol else None
+
+
+def ref_snap_scale(s: F, tol: F):
+    """('s',) unchanged | ('int', k) | ('inv', k) | ('err',)"""
+    if abs(s) >= 1 - tol:
+        k = ref_maybe_int(s, tol)
+        return ("s",) if k is None else ("int", k)
+    if abs(s) < tol:
+        return ("s",)
+    if s == 0:
+        return ("err",)
+    k = ref_maybe_int(1 / s, tol)
+    if k is None:
+        return ("s",)
+    return ("err",) if k == 0 else ("inv", k)
+
+
+def _floor(x: F) -> int:
+    return x.numerator // x.denominator
+
+
+def _ceil(x: F) -> int:
+    return -((-x.numerator) // x.denominator)
+
+
+def ref_snap_grid(x0: F, x1: F, res: F, off, tol: F):
+    """(tx, nx) in exact arithmetic, or 'ERR' where the code raises"""
+    def mi(u):
+        k = ref_maybe_int(u, tol)
+        return u if k is None else F(k)
+
+    if off is None:
+        if res == 0:
+            return "ERR"
+        r = abs(res)
+        nx = max(1, _ceil(mi((x1 - x0) / r)))
+        return (x0 if res > 0 else x1), nx
+    if not 0 <= off < 1 or res == 0 or x1 < x0:
+        return "ERR"
+    r = abs(res)
+    o = off * r
+    i0 = _floor(mi((x0 - o) / r))
+    i1 = _ceil(mi((x1 - o) / r))
+    nx = max(1, i1 - i0)
+    tx = i0 * r if res > 0 else i0 * r + nx * r
+    return tx + o, nx
+
+
+DELTAS = [1e-6, 1e-9, 1e-10, 1e-11, 1e-13, 2.0 ** -40]
+
+
+def near(k: float, rng=None):
+    """doubles at k +- {1e-6 ... 2^-40, 1 ulp}"""
+    out = [k, math.nextafter(k, math.inf), math.nextafter(k, -math.inf)]
+    for d in DELTAS:
+        out += [k + d, k - d]
+    return out
+
 # =============================================================================== sections
 def sec_split_int(R: Run, M):
     rng = R.rng
@@ -112,6 +190,10 @@ def sec_split_int(R: Run, M):
             R.oracle(w + p == F(x) and F(-1, 2) <= p <= F(1, 2) and w.denominator == 1,
                      "split-float-contract", {"fn": "split_float", "x": xf_s(x)},
                      f"split_float({x!r}) = {res[0]}: sum/range/integrality violated", sig="split")
+            R.oracle((w, p) == ref_split(F(x)), "split-float-differs-from-exact-recomputation",
+                     {"fn": "split_float", "x": xf_s(x)},
+                     f"split_float({x!r}) = {res[0]} but exact fmod/truncation arithmetic gives {tuple(map(float, ref_split(F(x))))}",
+                     sig="split-2sided")
         for tol in ([rng.choice(tols)] if tag == "rnd" else tols):
             tf = float(tol)
             mi = []
@@ -151,6 +233,16 @@ def sec_split_int(R: Run, M):
             for m in (0.0, 0.5, 0.999, 1.0, 1.001, 2.0):
                 for sg in (-1, 1):
                     one(n + sg * tol * m, "edge")
+    for base in (0.0, 0.5, -0.5, 1.0, -1.0, 1.5, -2.5, 7.0, 1000000.0, 123456.5, -4096.0):
+        for v in near(base):
+            one(v, "near")
+    for n in (-2, 0, 1, 3):
+        for tol in (1e-6, 0.01, 1e-3, 1e-10):
+            for sg in (-1, 1):
+                for v in near(n + sg * tol):     # the tolerance threshold itself, +- tiny
+                    one(v, "tol-edge")
+    for v in (1.7976931348623157e308, -1.7976931348623157e308, 8.98846567431158e307, 2.2250738585072014e-308, -2.2250738585072014e-308):
+        one(v, "special")
     for v in (float("inf"), float("-inf"), float("nan"), 2.0**52 + 1, -(2.0**53), 2.0**60, 1e300, 5e-324, -5e-324,
               0.5, -0.5, 0.5000000000000001, -0.5000000000000001, 0.49999999999999994):
         one(v, "special")
@@ -196,6 +288,18 @@ def sec_snap_scale(R: Run, M):
             return
         r = res[0]
         fs = F(s)
+        if exact:
+            want = ref_snap_scale(fs, tol)
+            if want[0] == "s":
+                ok2 = (not isinstance(r, int)) and r == s
+            elif want[0] == "int":
+                ok2 = isinstance(r, int) and r == want[1]
+            elif want[0] == "inv":
+                ok2 = (not isinstance(r, int)) and r == 1 / want[1]
+            else:
+                ok2 = False
+            R.oracle(ok2, "snap-scale-differs-from-exact-recomputation", {"s": frac_s(s), "tol": frac_s(tol)},
+                     f"snap_scale({s!r},{tf!r}) = {r!r} but exact arithmetic gives {want}", sig="sscale-2sided")
         if isinstance(r, int) or r != s:
             if F(r).denominator == 1:
                 ok = abs(F(r) - fs) < tol
@@ -272,6 +376,16 @@ def sec_pow2(R: Run, M):
         for a in range(1, 17):
             R.corr(f"c20 alup {x} {a}", lambda: str(M.align_up(x, a)), sig="align|small")
             R.corr(f"c20 aldown {x} {a}", lambda: str(M.align_down(x, a)), sig="align|small")
+    huge = [2**31, 2**53, 2**63, 2**64, 2**100, 10**30]
+    for _ in range(R.pick(600, 6000)):
+        x = rng.choice([-1, 1]) * rng.choice(huge) + rng.randint(-3, 3)
+        a = rng.choice([1, 2, 3, 7, 16, 256, 1000, 2**31 - 1, 2**32, 2**53 + 1, rng.randint(1, 10**6)])
+        u = R.corr(f"c20 alup {x} {a}", lambda: str(M.align_up(x, a)), sig="align|huge")
+        d = R.corr(f"c20 aldown {x} {a}", lambda: str(M.align_down(x, a)), sig="align|huge")
+        if not u.startswith("ERR") and not d.startswith("ERR"):
+            u, d = int(u), int(d)
+            R.oracle(u % a == 0 and d % a == 0 and d <= x <= u and u - x < a and x - d < a, "align-contract",
+                     {"x": x, "a": a}, f"align_up={u} align_down={d}", sig="align-huge")
     for _ in range(R.pick(300, 3000)):
         x, lo, up = (F(rng.randint(-40, 40), 4) for _ in range(3))
         R.corr(f"c20 clamp {frac_s(x)} {frac_s(lo)} {frac_s(up)}",
@@ -326,6 +440,13 @@ def sec_snap_grid(R: Run, M):
 
         R.corr(f"c20 grid {frac_s(x0)} {frac_s(x1)} {frac_s(res)} {opt_s(off, frac_s)} {frac_s(tol)}", f,
                sig=f"grid|{tag}|{'none' if off is None else 'off'}|{'pos' if res > 0 else 'neg' if res < 0 else 'zero'}")
+        want = ref_snap_grid(x0, x1, res, off, tol)
+        if res_l or want != "ERR":
+            got = (F(res_l[0][0]), int(res_l[0][1])) if res_l else "ERR"
+            R.oracle(got == want, "snap-grid-differs-from-exact-recomputation",
+                     {"fn": "snap_grid", "x0": frac_s(x0), "x1": frac_s(x1), "res": frac_s(res), "off": opt_s(off, frac_s), "tol": frac_s(tol)},
+                     f"snap_grid = {res_l[0] if res_l else 'raised'} but exact arithmetic gives "
+                     f"{want if want == 'ERR' else (float(want[0]), want[1])}", sig="grid-2sided")
         if res_l and res != 0 and x0 <= x1 and 0 <= tol < F(1, 2):
             tx, nx = res_l[0]
             grid_oracle(R, x0, x1, res, off, tol, F(tx), int(nx), F(0))
@@ -344,6 +465,22 @@ def sec_snap_grid(R: Run, M):
                         if q1 < q0 or q1 - q0 > 3:
                             continue
                         one(q0 * abs(res), q1 * abs(res), res, off, tol, "small")
+    # quotients a hair (1e-6 ... 1 ulp) away from integers / half-integers / the tolerance threshold; power-of-two
+    # pixel sizes keep x/res exact, so the model must agree exactly
+    for _ in range(R.pick(3000, 30000)):
+        res = F(rng.choice([-1, 1])) * F(2) ** rng.randint(-6, 5)
+        off = rng.choice([None, F(0), F(1, 2), F(1, 4)])
+        tol = rng.choice([TOL2, F(0), TOL6, F(1e-10), F(1, 128)])
+        k0 = rng.randint(-50, 50) + rng.choice([0, 0, 0.5, 0.25])
+        k1 = k0 + rng.randint(0, 40)
+        cands0 = near(float(k0)) + near(float(k0) + float(tol)) + near(float(k0) - float(tol))
+        cands1 = near(float(k1)) + near(float(k1) + float(tol)) + near(float(k1) - float(tol))
+        q0, q1 = F(rng.choice(cands0)), F(rng.choice(cands1))
+        if off is not None:
+            q0, q1 = q0 + off, q1 + off
+        if q1 < q0:
+            q0, q1 = q1, q0
+        one(q0 * abs(res), q1 * abs(res), res, off, tol, "near-int")
     # error branches
     for (x0, x1, res, off, tol) in [(0, 1, 0, 0, TOL2), (0, 1, 0, None, TOL2), (2, 1, 1, 0, TOL2), (2, 1, -1, F(1, 2), TOL2),
                                     (2, 1, 1, None, TOL2), (2, 1, -1, None, TOL2), (0, 1, 1, 1, TOL2), (0, 1, 1, F(-1, 4), TOL2),
@@ -511,6 +648,23 @@ def sec_affine(R: Run, M, Affine):
                    sig=f"saff|{'rot' if rotated else 'st'}")
         else:
             guarded(f)
+        if res_l and (exact_scales or rotated):
+            B = res_l[0]
+            if rotated:
+                wantB = vals
+            else:
+                def sc(v):
+                    w = ref_snap_scale(v, stol)
+                    return v if w[0] == "s" else F(w[1]) if w[0] == "int" else F(1, w[1]) if w[0] == "inv" else None
+                def tr(v):
+                    k = ref_maybe_int(v, ttol)
+                    return v if k is None else F(k)
+                wantB = [sc(vals[0]), F(0), tr(vals[2]), F(0), sc(vals[4]), tr(vals[5])]
+            gotB = [F(float(v)) for v in tuple(B)[:6]]
+            R.oracle(None not in wantB and gotB == wantB, "snap-affine-differs-from-exact-recomputation",
+                     {"A": aff_in(vals), "ttol": frac_s(ttol), "stol": frac_s(stol), "tol": frac_s(tol)},
+                     f"snap_affine = {tuple(B)[:6]} but exact arithmetic gives {[None if v is None else float(v) for v in wantB]}",
+                     sig="saff-2sided")
         if res_l:
             B = res_l[0]
             if rotated:
@@ -876,6 +1030,11 @@ def sec_bin(R: Run, M):
         origin = F(rng.randint(-10**6, 10**6), 2 ** rng.randint(0, 4))
         q = F(rng.randint(-2**20, 2**20), 2 ** rng.randint(0, 6))
         one(sz, origin, rng.choice([1, -1]), q, rng.randint(-1000, 1000), "rnd")
+    for _ in range(R.pick(1500, 15000)):        # points a hair away from bin edges, power-of-two bin sizes
+        sz = F(2) ** rng.randint(-6, 6)
+        origin = rng.choice([F(0), F(0), F(rng.randint(-64, 64)) * sz])
+        q = F(rng.choice(near(float(rng.randint(-40, 40)))))
+        one(sz, origin, rng.choice([1, -1]), q, rng.randint(-5, 5), "near-edge")
     for (sz, o, d) in [(0, 0, 1), (-1, 0, 1), (1, 0, 0), (1, 0, 2)]:
         R.corr(f"c20 bin {sz} {o} {d} 0", lambda: str(M.Bin1D(sz, o, d).bin(0)), sig="bin|bad-args")
     R.corr("c20 fsb 3 5 5 1", lambda: str(M.Bin1D.from_sample_bin(3, (5, 5), 1)), sig="fsb|bad-args")
@@ -969,6 +1128,12 @@ def sec_poly(R: Run, M, Affine):
 
         if ex1:
             R.corr(f"c20 poly {k} {cc_s} {aff_in(A1)} {frac_s(x)} {frac_s(y)}", f1, sig=f"poly|k{k}|{ka}")
+            if e1:
+                xs, ys = full1
+                want = tuple(sum(cc[i * k + j][c] * xs ** i * ys ** j for i in range(k) for j in range(k)) for c in (0, 1))
+                R.oracle((F(float(e1[0][0])), F(float(e1[0][1]))) == want, "poly2d-eval-differs-from-exact-recomputation",
+                         {"k": k, "cc": cc_s, "A": aff_in(A1), "x": frac_s(x), "y": frac_s(y)},
+                         f"Poly2d(x,y) = {list(e1[0])} but sum cc[i][j] x'^i y'^j = {[float(v) for v in want]}", sig="poly-2sided")
         else:
             R.count("poly:skipped-inexact")
         okm, A12 = _aff_mul_exact(A1, A2)
